@@ -238,12 +238,22 @@ class World(OpsMixin, OracleMixin):
 
             Holder.run.__name__ = Holder.run.__qualname__ = w.__name__
             w = Holder().run
-        if spec.get("flavour") == "partial" and getattr(req, "named", False):
-            # a functools.partial has no __name__: legal as long as the caller names the group
+        if spec.get("flavour") in ("partial", "object", "partial_object") and getattr(req, "named", False):
+            # callables without __name__ (a functools.partial, an object marked as coroutine function, a partial of
+            # such an object): legal as long as the caller names the group
             import functools
 
-            w = functools.partial(w)
-            self.sit["func.partial"] += 1
+            inner = w
+            if spec["flavour"] != "partial":
+                class Job:
+                    def __call__(self, *args, **kwargs):
+                        return inner(*args, **kwargs)
+
+                w = Job()
+                inspect.markcoroutinefunction(w)
+            if spec["flavour"] != "object":
+                w = functools.partial(w)
+            self.sit["func." + spec["flavour"]] += 1
         req.func = w
         return w
 
@@ -331,7 +341,7 @@ class World(OpsMixin, OracleMixin):
                             self.cancel_seen(t, "w")
                     return "cancelled", ce
                 return "cancelled", ce
-            if t.pending and ins[0] in ("y", "g", "q") and (ins[0] != "y" or ins[1] > 0) and (ins[0] != "q" or t.q_suspended):
+            if t.pending and ins[0] in ("y", "g", "q", "f") and (ins[0] != "y" or ins[1] > 0) and (ins[0] not in ("q", "f") or t.q_suspended):
                 self.delivery_violation(t, f"task {t.tid} resumed normally from a suspension although a cancellation had been requested before (not delivered at its next suspension point)")
                 t.pending = False
                 t.owed -= 1
@@ -355,6 +365,12 @@ class World(OpsMixin, OracleMixin):
             await self._gate("w", t)
         elif op == "q":
             await self._qblock(t)
+        elif op == "f":
+            # a housekeeping worker: it awaits flush() of its own pool inline (its suspension point lies inside the pool)
+            t.q_suspended = False
+            if not (self.draining and not self.checks_on):
+                self.sit["flush_inline"] += 1
+                await self._flush(t.pool, True, True, None, inline=t)
         elif op == "op":
             self.do_op(ins[1], ("worker", t))
 
